@@ -137,8 +137,26 @@ func c12(c *an.Ctx) {
 	// Unexported named helpers are not reported themselves: an unchecked sink in
 	// a helper makes every call of the helper a sink of its caller (summaries),
 	// so the obligation lands on the exported API methods and on closures.
-	exemptAPI := map[string]string{
-		"NewDB$1": "batchFetch.Many: reached only through batchFetch.Invoke, itself a sink that BaseQuery guards (verified by the who-may-use rule)",
+	// batchFetch.Many - identified by role (the function stored in the Many field of the
+	// batch.Func literal of NewDB, a closure or a method value): it is reached only through
+	// batchFetch.Invoke, itself a sink that BaseQuery guards (verified by the who-may-use rule)
+	batchMany := func() *ssa.Function {
+		nd := c.NeedFunc(sg, "NewDB")
+		for _, l := range an.StructLits(nd, "Func") {
+			if f := an.ClosureArg(l.Fields["Many"]); f != nil {
+				return f
+			}
+		}
+		return nil
+	}
+	isBatchMany := func(fn *ssa.Function) bool {
+		m := batchMany()
+		for f := fn; f != nil && m != nil; f = f.Parent() {
+			if f == m {
+				return true
+			}
+		}
+		return false
 	}
 
 	c.Check("R-DOM-ERR", "every statement sink reachable from a *DB method lies behind the success edge of the limit check", 12, func(o *an.O) {
@@ -155,7 +173,7 @@ func c12(c *an.Ctx) {
 				o.Site(chk)
 			}
 			name := an.QualName(fn)
-			if listedFunc(exemptAPI, name) {
+			if isBatchMany(fn) {
 				continue
 			}
 			if fn.Parent() == nil && !ast.IsExported(fn.Name()) {
@@ -177,10 +195,8 @@ func c12(c *an.Ctx) {
 			o.Undecided("only %d statement sinks found in sqlgen (expected >= 5)", nsinks)
 		}
 		// helpers: every in-package caller must be fine (already implied by the fixpoint); callers outside sqlgen are forbidden (unexported)
-		for name := range exemptAPI {
-			if fn := p.Func(sg, name); fn == nil {
-				o.Undecided("exempt helper %s no longer exists; remove it from the table", name)
-			}
+		if batchMany() == nil {
+			o.Undecided("cannot find the function stored as batchFetch.Many in NewDB")
 		}
 	})
 
@@ -456,8 +472,9 @@ func c12(c *an.Ctx) {
 
 	c.Check("R-WHO", "the raw connection (DB.Conn, QueryExecer), batchFetch and the limit fields are used only by the allow-listed functions", 15, func(o *an.O) {
 		allowConn := map[string]string{
-			"sqlgen.NewDB":                   "constructor stores the connection",
-			"sqlgen.NewDB$1":                 "batchFetch.Many runs the combined SELECT (filters were checked before Invoke)",
+			"sqlgen.NewDB": "constructor stores the connection",
+			// (batchFetch.Many itself is allowed by role, see isBatchMany: it runs the combined SELECT
+			// after the filters were checked before Invoke)
 			"sqlgen.(*DB).WithTx":            "BeginTx sends no table statement; context key",
 			"sqlgen.(*DB).WithExistingTx":    "context key only",
 			"sqlgen.(*DB).HasTx":             "context key only",
@@ -479,7 +496,7 @@ func c12(c *an.Ctx) {
 			full := an.RelPkg(fn) + "." + an.QualName(fn)
 			for _, r := range an.FieldRefs(fn, sgPath(), "DB", "Conn") {
 				o.Site(r.Instr)
-				if !p.AllowedFunc(fn, func(f *ssa.Function) bool { _, ok := allowConn[an.RelPkg(f)+"."+an.QualName(f)]; return ok }) {
+				if !isBatchMany(fn) && !p.AllowedFunc(fn, func(f *ssa.Function) bool { _, ok := allowConn[an.RelPkg(f)+"."+an.QualName(f)]; return ok }) {
 					o.FailAt(r.Instr, "%s uses DB.Conn directly: statements sent this way bypass the shard-limit checks", full)
 				}
 			}
